@@ -271,8 +271,9 @@ func (dm *DMap) checkPutConditions(e *env) error {
 		}
 	}
 
-	// Only set the key if it already exists.
-	if e.putConfig.HasXX && !e.fragment.storage.Check(e.hkey) {
+	// Only set the key (or update its expiry) if it already exists. A key
+	// that has expired but has not been evicted yet does not exist.
+	if e.putConfig.HasXX || e.putConfig.OnlyUpdateTTL {
 		ttl, err := e.fragment.storage.GetTTL(e.hkey)
 		if err == nil {
 			if isKeyExpired(ttl) {
